@@ -10,7 +10,7 @@ plan('C12',
           'distinct = hash of the executed (thread, point) event sequence per scenario. stress cases: 16 real threads x 10^4-10^6 operations with seeded jitter at the same points under TSan, ASan and -O2; '
           'counters: AtomicCount and Atomic<int|Long|double> with known per-thread sums',
      jobs=[
-         Job(H, 'serial', 'asan', quick=70, thorough=700, shards=(10, 16), params=dict(ops2=3, maxsched=400), tparams=dict(ops2=4, maxsched=3000), batch=7, case_timeout=300),
+         Job(H, 'serial', 'asan', quick=140, thorough=700, shards=(10, 16), params=dict(ops2=3, maxsched=800), tparams=dict(ops2=4, maxsched=3000), batch=7, case_timeout=300),
          Job(H, 'serial_counters', 'asan', quick=16, thorough=200, shards=(4, 8), params=dict(maxsched=400), tparams=dict(maxsched=5000), batch=4, case_timeout=300),
          Job(H, 'stress', 'tsan', quick=14, thorough=70, shards=(4, 4), params=dict(threads=16, ops=15000), tparams=dict(ops=100000), weight=4, batch=1, case_timeout=300, leakcheck=False),
          Job(H, 'stress', 'asan', quick=14, thorough=70, shards=(4, 4), params=dict(threads=16, ops=50000), tparams=dict(ops=400000), weight=4, batch=7, case_timeout=300),
